@@ -58,8 +58,9 @@ struct Affine {
         if (std::is_floating_point<T>::value || std::is_floating_point<R>::value) {
             long double e = (long double)num / (long double)den;
             long double scale = std::fabs((long double)xi * sp.fineU) + sp.fineD;  // size of the larger intermediate
-            long double epsr = (long double)std::numeric_limits<CT>::epsilon(); if (std::is_floating_point<T>::value && (long double)std::numeric_limits<T>::epsilon() > epsr) epsr = (long double)std::numeric_limits<T>::epsilon();   // the result is rounded to T
-            long double tol = 4 * epsr * (scale / (long double)sp.fineV + std::fabs(e)) + 1e-30L;   // scale is in units of the finest unit ff; one target unit is fineV of them
+            long double epsr = (long double)std::numeric_limits<CT>::epsilon();   // the documented calculation rep: every intermediate is rounded to CT ...
+            long double epst = std::is_floating_point<T>::value ? (long double)std::numeric_limits<T>::epsilon() : 0.0L;   // ... and only the final result to a (possibly narrower) floating T
+            long double tol = 4 * epsr * (scale / (long double)sp.fineV + std::fabs(e)) + 2 * epst * std::fabs(e) + 1e-30L;   // scale is in units of the finest unit ff; one target unit is fineV of them
             if (std::is_integral<T>::value) { if (num % den != 0) return; if (!in_range<T>(num / den)) return; tol += 0; }
             ++n_conv_asserted;
             long double r = (long double)conv(x), r2 = (long double)conv2(x);
